@@ -11,7 +11,7 @@ Next == l < Len(Trace) /\ l' = l + 1
 Spec == Init /\ [][Next]_l
 
 (* a body whose every field text is of the declared type *)
-WellTyped(c) == \/ c.family \in {"text", "octet"}
+WellTyped(c) == \/ c.family \in {"text", "octet", "zip"}
                 \/ c.family \in {"json", "yaml"}      \* a JSON / YAML text always decodes to the value it spells
                 \/ c.family = "multipart" /\ "partCT" \in DOMAIN c /\ c.partCT = "json"     \* ... and so does every part that is a JSON text
                 \/ "wrap" \in DOMAIN c /\ Valid([BaseSchemaOf(c) EXCEPT !.required = <<>>], c.v, "plain")   \* (form / multipart: the value is not wrapped)
